@@ -455,6 +455,8 @@ class StmtMixin:
             old = self.frame.locals.get(name)
             if old is not None and old.t is not TPy:
                 self.frame.locals[name] = fresh(old.t, name)
+                # (an arbitrary value of its type: list lengths are non-negative, references are allocated ...)
+                self.assume_wf(self.frame.locals[name])
         if '*' in fields:
             # the body calls something that may write anything: every heap field seen so far or declared
             # for the schemas, and every ghost variable
@@ -547,7 +549,13 @@ class StmtMixin:
                 self.live_views.pop()
 
     def live_view_receiver(self, node):
-        '''for x in recv.m(...): when the contract of m says it returns a live view of recv's internals.'''
+        '''for x in recv.m(...): when the contract of m says it returns a live view of recv's internals
+        (also through a local: v = recv.m(...); for x in v).'''
+        if isinstance(node, ast.Name):
+            v = self.frame.locals.get(node.id)
+            if v is not None and v.py and v.py[0] == 'liveview':
+                return (v.py[1], v.py[2])
+            return None
         if not (isinstance(node, ast.Call) and isinstance(node.func, ast.Attribute)):
             return None
         try:
